@@ -42,6 +42,9 @@ type symv struct {
 	// quotient of two symbolic values).  It may be stored and copied, but any
 	// comparison, conversion or observation of it aborts the path as unsupported.
 	bad string
+	// bv != "": a (_ BitVec 64) term with the same (signed) value, kept for
+	// integers that meet IEEE floats so that those queries stay in BV+FP.
+	bv string
 }
 
 func isSym(v value) bool { _, ok := v.(symv); return ok }
@@ -263,6 +266,12 @@ func symBinop(op token.Token, t types.Type, x, y value) value {
 				return res(ii.wrapm(bin("tdiv")))
 			}
 			return res(bin("trem"))
+		case token.LSS, token.LEQ, token.GTR, token.GEQ, token.EQL, token.NEQ:
+			if t := bvCompare(op, a, b, x, y); t != "" {
+				return mkBool(ex, t)
+			}
+		}
+		switch op {
 		case token.LSS:
 			return mkBool(ex, bin("<"))
 		case token.LEQ:
@@ -364,6 +373,18 @@ func symShift(ex *Explorer, op token.Token, x, y value) value {
 	return ex.name(symv{ex: ex, k: kInt, bk: a.bk, e: "(div " + a.e + " " + p + ")"})
 }
 
+func bvToInt(bv string) string {
+	return "(let ((u (bv2nat " + bv + "))) (ite (>= u 9223372036854775808) (- u 18446744073709551616) u))"
+}
+
+func bvLit(x *big.Int) string {
+	m := new(big.Int).Set(x)
+	if m.Sign() < 0 {
+		m.Add(m, new(big.Int).Lsh(big.NewInt(1), 64))
+	}
+	return "(_ bv" + m.String() + " 64)"
+}
+
 func symUnop(op token.Token, x symv) value {
 	ex := x.ex
 	if x.bad != "" {
@@ -416,6 +437,9 @@ func symConv(tdst types.Type, x symv) value {
 		if !infoOf(x.bk).signed {
 			unsupported("symConv: unsigned->float in ieee mode")
 		}
+		if x.bv != "" {
+			return ex.name(symv{ex: ex, k: kF64, bk: types.Float64, e: "((_ to_fp 11 53) RNE " + x.bv + ")"})
+		}
 		// Int -> signed bit-vector -> float (RNE), exact IEEE semantics
 		return ex.name(symv{ex: ex, k: kF64, bk: types.Float64, e: "((_ to_fp 11 53) RNE ((_ int2bv 64) " + x.e + "))"})
 	case b.Info()&types.IsInteger != 0 && x.k == kF64:
@@ -428,7 +452,10 @@ func symConv(tdst types.Type, x symv) value {
 		}
 		bv := "((_ fp.to_sbv 64) RTZ " + x.e + ")"
 		// signed value of the bit-vector
-		return ex.name(symv{ex: ex, k: kInt, bk: b.Kind(), e: "(let ((u (bv2nat " + bv + "))) (ite (>= u 9223372036854775808) (- u 18446744073709551616) u))"})
+		r := symv{ex: ex, k: kInt, bk: b.Kind(), e: bvToInt(bv), bv: bv}
+		// An integer derived from an IEEE float is case-split at once: every
+		// later branch on it would otherwise need a floating-point query.
+		return ex.concretize(r)
 	case b.Info()&types.IsFloat != 0 && x.k == kF64:
 		if b.Kind() != types.Float64 && b.Kind() != types.UntypedFloat {
 			unsupported("symConv: float32")
@@ -577,4 +604,43 @@ func gridRound(x symv, mode string) symv {
 		t = "(ite (>= " + n + " 0) (div (+ " + n + " " + half + ") " + p + ") (- (div (+ (- " + n + ") " + half + ") " + p + ")))"
 	}
 	return ex.name(symv{ex: ex, k: kF64, bk: types.Float64, e: t, g: &grid{coef: big.NewInt(1), scale: 0}})
+}
+
+// bvCompare: comparison in the bit-vector theory when one side carries a BV
+// term and the other is a concrete integer (or also carries one).
+func bvCompare(op token.Token, a, b symv, x, y value) string {
+	side := func(s symv, v value) string {
+		if s.bv != "" {
+			return s.bv
+		}
+		if _, lit, ok := concIntLit(v); ok {
+			k, ok2 := new(big.Int).SetString(strings.Trim(strings.ReplaceAll(strings.ReplaceAll(lit, "(- ", "-"), ")", ""), " "), 10)
+			if ok2 {
+				return bvLit(k)
+			}
+		}
+		return ""
+	}
+	if a.bv == "" && b.bv == "" {
+		return ""
+	}
+	l, r := side(a, x), side(b, y)
+	if l == "" || r == "" {
+		return ""
+	}
+	switch op {
+	case token.LSS:
+		return "(bvslt " + l + " " + r + ")"
+	case token.LEQ:
+		return "(bvsle " + l + " " + r + ")"
+	case token.GTR:
+		return "(bvsgt " + l + " " + r + ")"
+	case token.GEQ:
+		return "(bvsge " + l + " " + r + ")"
+	case token.EQL:
+		return "(= " + l + " " + r + ")"
+	case token.NEQ:
+		return "(not (= " + l + " " + r + "))"
+	}
+	return ""
 }
